@@ -38,18 +38,20 @@ const (
 type wreq struct {
 	Src  string           `json:"src"`
 	Vars map[string]int64 `json:"vars,omitempty"`
+	Hist *histReq         `json:"hist,omitempty"` // a history of the result_history sub-check instead of Src
 }
 
 type wresp struct {
-	HasErr  bool    `json:"has_err,omitempty"`
-	Err     string  `json:"err,omitempty"`
-	Panic   string  `json:"panic,omitempty"`
-	Typ     string  `json:"typ,omitempty"`
-	IsList  bool    `json:"is_list,omitempty"`
-	Len     int     `json:"len,omitempty"`
-	Val     []int64 `json:"val,omitempty"` // first maxReturned elements
-	Runaway bool    `json:"runaway,omitempty"`
-	Ctx     bool    `json:"ctx,omitempty"` // the 5 s context expired inside the child
+	HasErr  bool      `json:"has_err,omitempty"`
+	Err     string    `json:"err,omitempty"`
+	Panic   string    `json:"panic,omitempty"`
+	Typ     string    `json:"typ,omitempty"`
+	IsList  bool      `json:"is_list,omitempty"`
+	Len     int       `json:"len,omitempty"`
+	Val     []int64   `json:"val,omitempty"` // first maxReturned elements
+	Runaway bool      `json:"runaway,omitempty"`
+	Ctx     bool      `json:"ctx,omitempty"` // the 5 s context expired inside the child
+	Hist    *histResp `json:"hist,omitempty"`
 }
 
 func TestMain(m *testing.M) {
@@ -102,6 +104,9 @@ func workerMain() {
 }
 
 func workerExec(req wreq) wresp {
+	if req.Hist != nil {
+		return wresp{Hist: histExec(req.Hist)}
+	}
 	e := env.NewEnv()
 	core.Import(e)
 	for k, v := range req.Vars {
